@@ -11,6 +11,7 @@ PROOF_FILES = ['Proofs/CstProofs.v', 'Proofs/JsonWalkProofs.v', 'Proofs/TomlWalk
 CLASS_FINDING = {
     'utf16': 'C05-byte-columns-sent-as-utf16',
     'gha-quoted-uses': 'C05-quoted-uses-range-shifted',
+    'yaml-multiline-scalar': 'C05-yaml-multiline-scalar-position',
 }
 
 
@@ -94,6 +95,12 @@ def run(tier, seed):
         t = g(rnd).text
         step = max(1, len(t) // (40 if tier == 'quick' else 400))
         mal += [(fmt, t[:k]) for k in range(0, len(t), step)]
+        if fmt in ('github_actions', 'pnpm_workspace'):
+            # YAML scalars that span lines (valid YAML; as a uses: / catalog value unusual, possibly not a manifest any more)
+            for _ in range(10 if tier == 'quick' else 250):
+                t = M.multiline_yaml(rnd, fmt, g)
+                if t:
+                    mal.append((fmt, t))
     outs, err = P.run_docs(pairs + mal)
     if err:
         rep.broke('harness stream parse failed', err)
@@ -115,6 +122,13 @@ def run(tier, seed):
             nstruct += 1
             s = structural(tb, p)
             if s:
+                # known class: the dependency's YAML scalar spans lines (a line break between the start of the reported
+                # line and the end of the reported range, or inside the reported name / version)
+                lines_b = tb.split(b'\n')
+                ls0 = sum(len(x) + 1 for x in lines_b[:p['line']]) if p['line'] < len(lines_b) else len(tb)
+                if fmt in ('github_actions', 'pnpm_workspace') and (b'\n' in tb[ls0:p['end']] or '\n' in p['name'] or '\n' in p['version']):
+                    rep.known(CLASS_FINDING['yaml-multiline-scalar'], {'format': fmt, 'document': t[:600], 'reported': p, 'problem': s})
+                    continue
                 if len(rep.violations) < 6:
                     rep.violation(f'{fmt}: on a damaged document a reported location is unsound: {s}', {'format': fmt, 'document': t, 'reported': p})
     if proofs_ok and outs:
